@@ -407,6 +407,17 @@ func checkC17(c *c17Case) (ds []hx.Discrepancy, info map[string]bool) {
 			return []hx.Discrepancy{{Kind: "setup", Detail: "the document meant to be refused was accepted:\n" + refusedExtension(c.Schema)}}, info
 		}
 		if c.Midway {
+			// a document with a schema block of its own that does not parse to its end
+			for _, td := range c.Schema.Types {
+				if td.Kind == hx.KObject {
+					doc := fmt.Sprintf("schema { query: %s }\ntype ZqCut {", td.Name)
+					info["refused-document-with-a-schema-block-that-does-not-parse"] = true
+					if err := root.ParseString(doc); err == nil {
+						return []hx.Discrepancy{{Kind: "setup", Detail: "the document meant to be refused was accepted:\n" + doc}}, info
+					}
+					break
+				}
+			}
 			for _, doc := range midwayExtensions(c.Schema) {
 				info["refused-extension-that-fails-part-way"] = true
 				if err := root.ParseString(doc); err == nil {
